@@ -2,7 +2,7 @@
    untouchable; invalid files are rejected as a whole.
    Models: Monitor/Monitor.v (scan_policies), Monitor/Spec.v (the property). *)
 From Coq Require Import ZArith List Bool.
-From PK Require Import Monitor.AList Monitor.Monitor Monitor.Spec Monitor.Views Monitor.Refine Monitor.Wf Monitor.Broken.
+From PK Require Import Monitor.AList Monitor.Monitor Monitor.Spec Monitor.Views Monitor.Refine Monitor.Wf Monitor.Broken Monitor.Confluence.
 From PK Require Import Monitor.Parse Monitor.ParseProofs Monitor.ParseCases Monitor.MonitorCases.
 From PKGen Require Import PolicyNames.
 Import ListNotations.
@@ -126,6 +126,23 @@ Theorem tracking_consistent : forall purge s h, Forall wf_fs h ->
   forall q, reserved q = false -> exists E, eff (view_of (run_gen purge s h) q) = Some E.
 Proof. exact tracking_consistent_run. Qed.
 Print Assumptions tracking_consistent.
+
+(* ------------------------------------------------------------------ Python set iteration order *)
+(* scan_policies walks the removed files and the names a reloaded file dropped as Python sets
+   (hash order).  In every reachable state, removing two files in either order gives the same
+   store entry, owner and cache stack for every name; two dropped names commute in any state.
+   Neighbour swaps generate all orders, so the model's list order loses nothing. *)
+Theorem removed_files_order_irrelevant : forall purge s h f1 f2 q, Forall wf_fs h ->
+  let m := run_gen purge s h in
+  view_of (remove_file f1 (remove_file f2 m)) q = view_of (remove_file f2 (remove_file f1 m)) q.
+Proof. exact remove_file_comm_reachable. Qed.
+Print Assumptions removed_files_order_irrelevant.
+
+Theorem dropped_names_order_irrelevant : forall f p p' m q, p <> p' ->
+  let step := fun m p => restore_or_delete p (disassociate p f m) in
+  view_of (step (step m p) p') q = view_of (step (step m p') p) q.
+Proof. exact dropped_names_comm. Qed.
+Print Assumptions dropped_names_order_irrelevant.
 
 (* ------------------------------------------------------------------ the parser *)
 (* Whatever the file holds - not JSON, or any JSON value - and whatever the enumerations
